@@ -96,9 +96,12 @@ pub fn spawn(
                                 .map(|seq| seq + 1)
                                 .collect();
 
+                        // Wait until the confirmation actor has processed the update (not just
+                        // queued it): the watermark gates every read, and the client must be
+                        // able to read its own write as soon as it is acknowledged.
                         let _ = config
                             .confirmation_ref
-                            .tell(UpdateConfirmationWithBroadcast {
+                            .ask(UpdateConfirmationWithBroadcast {
                                 partition_id,
                                 versions: confirmation_versions.clone(),
                                 confirmation_count,
